@@ -94,4 +94,24 @@ example : errorOf ⟨1, 2, 3, [([1], .null), ([2], .null)]⟩ = .errorResponse 2
 example : errorOf ⟨1, 5, 2, [([1], .null), ([2], .null)]⟩ = .errorResponse 5 "GenErr" [2] := by
   simp [errorOf, errorClass, Gen.errorTable]
 
+/-- **From the octets on.**  Whatever community response message an agent writes (`Glue.WritesMsg`: any
+    PDU class, bindings and length forms) with the expected version and community and a NON-ZERO
+    error-status: every operation of the client raises exactly `errorOf` of the PDU the agent wrote —
+    the documented class for the status, the offending OID selected by error-index — and returns nothing. -/
+theorem C08_from_wire (e : Ber.Enc) (m : RespMsg) (cls : String) (hw : Glue.WritesMsg e m cls) (community : Bytes) (rid : Int)
+    (hver : m.version = 1) (hcom : m.community = community) (hes : m.pdu.errorStatus ≠ 0)
+    (fuel depth : Nat) (hwd : e.width ≤ fuel) (hd : e.depth ≤ depth)
+    (oids : List Oid) (oid : Oid) (vbs : List VarBind) (v : Val) (scalars reps : List Oid) (maxList : Int) :
+    (multiget (.v2c community) oids).result rid (C06.fromWire e.bytes fuel depth) = .error (errorOf m.pdu) ∧
+    (Ops.get (.v2c community) oid).result rid (C06.fromWire e.bytes fuel depth) = .error (errorOf m.pdu) ∧
+    (multigetnext (.v2c community) oids).result rid (C06.fromWire e.bytes fuel depth) = .error (errorOf m.pdu) ∧
+    (getnext (.v2c community) oid).result rid (C06.fromWire e.bytes fuel depth) = .error (errorOf m.pdu) ∧
+    (multiset (.v2c community) vbs).result rid (C06.fromWire e.bytes fuel depth) = .error (errorOf m.pdu) ∧
+    (Ops.set (.v2c community) oid v).result rid (C06.fromWire e.bytes fuel depth) = .error (errorOf m.pdu) ∧
+    (bulkget (.v2c community) scalars reps maxList).result rid (C06.fromWire e.bytes fuel depth) = .error (errorOf m.pdu) := by
+  unfold C06.fromWire
+  rw [C06.C06_message_readback e m cls hw fuel depth hwd hd]
+  exact C08_every_operation (.v2c community) rid m _ ((C08_error_surfaces rid m community hes).2.2 hver hcom)
+    oids oid vbs v scalars reps maxList
+
 end Snmp.Props.C08
